@@ -11,6 +11,7 @@ import (
 
 	lime "github.com/takenet/lime-go"
 
+	"errors"
 	"verif/harness/internal/core"
 	"verif/harness/internal/rig"
 )
@@ -681,6 +682,11 @@ func (p c13) scenario(r *core.Result, s c13scn, seed uint64) {
 	case "client-finish":
 		if termErr == nil && clientTransports[0].Connected() {
 			fail("initiator-still-connected", "FinishSession returned nil but the client's transport is still connected")
+		}
+		if termErr != nil && srvCh.State() == lime.SessionStateFinished && !errors.Is(termErr, context.DeadlineExceeded) && !errors.Is(termErr, context.Canceled) {
+			// the server did answer the finishing request (its channel is finished): the client's call has to
+			// complete the handshake, not fail on its own receiver having been faster
+			fail("finish-failed-though-answered", "the server answered the finishing request (its channel is finished) but ClientChannel.FinishSession returned %v (client state %s, client transport connected: %v)", termErr, cc.State(), clientTransports[0].Connected())
 		}
 	case "server-finish", "server-fail":
 		if termErr == nil && srvCh.VerifTransport().Connected() {
